@@ -109,7 +109,7 @@ def exec (toks : List String) : List String :=
       let out := encodeChange x
       [s!"ok {hexOfBytes (hashOfChunk out)} {hx out}"]
     | _, _, _, _, _, _, _, _ => ["bad-input"]
-  | cmd :: _ => if cmd.startsWith "codec.bundle" || cmd.startsWith "codec.apply" then ["skip"] else ["unknown-cmd"]
+  | cmd :: _ => if cmd.startsWith "codec.bundle" || cmd.startsWith "codec.apply" || cmd.startsWith "codec.docstr" then ["skip"] else ["unknown-cmd"]
   | [] => ["bad-input"]
 
 end Driver.Codec
